@@ -1,8 +1,48 @@
-"""C04 -- file-system property; see fscommon.py and coq/theories/Props/C04.v"""
+"""C04 -- file-system property; see fscommon.py and coq/theories/Props/C04.v; plus directory slots on CP/M 3 volumes with passwords
+(real binary: the library harness has no password operations)"""
+import os, tempfile, shutil
+import framework as fw
 import fscommon
+
+NEEDS_BINS = True
+
+
+def password_slot_scenario(ctx):
+    """nothing leaks: after any number of store / protect / delete cycles an empty CP/M 3 volume still takes a file that needs several
+    directory entries"""
+    from cliutil import run as cli
+    d = tempfile.mkdtemp(dir=fw.BUILD)
+    try:
+        for ty, kind, cycles in [('imd', '5.25in-kayii', 70), ('do', '5.25in', 55)]:
+            p = os.path.join(d, f'slots.{ty}')
+            if cli(['mkdsk', '-o', 'cpm3', '-t', ty, '-k', kind, '-v', 'LAB', '-d', p])[0] != 0:
+                continue
+            done = 0
+            for i in range(cycles):
+                if cli(['put', '-d', p, '-f', f'F{i}.T', '-t', 'txt'], stdin=b'T\n')[0] != 0:
+                    break
+                cli(['protect', '-d', p, '-f', f'F{i}.T', '-p', 'PW', '--read'])
+                if cli(['delete', '-d', p, '-f', f'F{i}.T'])[0] != 0:
+                    break
+                done += 1
+            rc, _, err = cli(['put', '-d', p, '-f', 'BIG.T', '-t', 'txt'], stdin=b'A' * 40000)
+            ctx.evaluations += 1
+            if done < cycles or rc != 0:
+                ctx.failures.append({'cls': 'cpm3:directory-slots-leak', 'case': f'a2kit put / protect / delete, {cycles} times on cpm3 {kind}, then put of 40000 bytes',
+                                     'detail': f'{done} cycles completed; the final put on the empty volume exits {rc}: {err.decode("utf-8", "replace")[-160:]}'})
+            else:
+                ctx.nontrivial.add(f'cpm3 {kind} slots after {cycles} cycles')
+    finally:
+        shutil.rmtree(d, ignore_errors=True)
+
 
 def run(ctx, model_ok=True):
     fscommon.standard_run(ctx, 'C04', opts='k', lock_heavy=False, model_ok=model_ok)
+    password_slot_scenario(ctx)
 
 def replay(ctx, rp):
-    fscommon.replay(ctx, 'C04', rp)
+    f = rp.get('failure')
+    if f and f.get('cls', '').startswith('cpm3:'):
+        password_slot_scenario(ctx)
+    else:
+        fscommon.replay(ctx, 'C04', rp)
